@@ -88,7 +88,7 @@ def run_impl(ctx, cases, tag, procs=8, timeout=900):
         todo = list(parts[k])
         got = {}
         rounds = 0
-        while todo and rounds < 40:
+        while todo and rounds < len(parts[k]) + 5:      # every round completes at least the case that wedged
             rounds += 1
             fin = os.path.join(C.BUILD, "%s_in_%d.json" % (tag, k))
             fout = os.path.join(C.BUILD, "%s_out_%d.json" % (tag, k))
